@@ -3,6 +3,7 @@ package main
 import (
 	"errors"
 	"fmt"
+	"io"
 	"runtime/debug"
 	"strings"
 
@@ -171,6 +172,80 @@ func c01BodiesThatFailHalfway(res *Result) {
 					fail(w[0]+" on another engine after a body that failed", want, got, "a new engine renders the good template differently after "+bad+" failed elsewhere")
 					break
 				}
+			}
+		}
+	}
+}
+
+// c01SettingsSwitchedBackAndForth: an engine whose settings were switched off and on again renders what a new engine
+// with the same registrations and the same final settings renders: directly registered templates, loader templates,
+// compiled ones, and pages that include / extend / import them.
+func c01SettingsSwitchedBackAndForth(res *Result) {
+	res.Hist["stream:settings-switched-back-and-forth"]++
+	fail := func(where, want, got, detail string) {
+		res.add(Finding{Kind: "oracle", Where: "settings-switched/" + where, Case: Case{"stream": "settings-switched-back-and-forth", "scenario": where}, Expected: want, Observed: got, Detail: detail})
+	}
+	build := func() *twig.Engine {
+		e := twig.New()
+		e.RegisterLoader(twig.NewArrayLoader(map[string]string{"page": "{% extends 'layout' %}{% block body %}{% include 'footer' %}{% import 'lib' as l %}{{ l.m(v) }}{% endblock %}", "layout": "<{% block body %}{% endblock %}>"}))
+		e.RegisterString("footer", "[footer {{ v }}]")
+		e.RegisterString("lib", "{% macro m(x) %}({{ x }}){% endmacro %}")
+		if t, err := e.ParseTemplate("parsed {{ v }}"); err == nil {
+			e.RegisterTemplate("parsed", t)
+		}
+		o := twig.New()
+		o.RegisterString("compiled", "compiled {{ v }}")
+		if ct, err := o.CompileTemplate("compiled"); err == nil {
+			e.RegisterCompiledTemplate(ct)
+		}
+		return e
+	}
+	names := []string{"page", "footer", "parsed", "compiled", "lib"}
+	obs := func(e *twig.Engine) string {
+		s := ""
+		for _, n := range names {
+			out, err := e.Render(n, map[string]interface{}{"v": "V"})
+			s += n + "=" + c01Class(out, err) + ":" + out + ";"
+		}
+		return s
+	}
+	want := obs(build())
+	toggles := []struct {
+		name string
+		do   func(e *twig.Engine)
+	}{
+		{"SetCache(false); SetCache(true)", func(e *twig.Engine) { e.SetCache(false); e.SetCache(true) }},
+		{"SetCache(false); render; SetCache(true)", func(e *twig.Engine) { e.SetCache(false); obs(e); e.SetCache(true) }},
+		{"SetDevelopmentMode(true); SetDevelopmentMode(false)", func(e *twig.Engine) {
+			twig.SetDebugWriter(io.Discard)
+			e.SetDevelopmentMode(true)
+			obs(e)
+			e.SetDevelopmentMode(false)
+			twig.SetDebugLevel(twig.DebugOff)
+		}},
+		{"SetAutoReload(true); SetAutoReload(false)", func(e *twig.Engine) { e.SetAutoReload(true); obs(e); e.SetAutoReload(false) }},
+		{"SetDebug(true); SetDebug(false)", func(e *twig.Engine) {
+			twig.SetDebugWriter(io.Discard)
+			e.SetDebug(true)
+			obs(e)
+			e.SetDebug(false)
+			twig.SetDebugLevel(twig.DebugOff)
+		}},
+		{"SetCache(true) twice", func(e *twig.Engine) { e.SetCache(true); e.SetCache(true) }},
+		{"SetStrictVars(true); SetStrictVars(false)", func(e *twig.Engine) { e.SetStrictVars(true); e.SetStrictVars(false) }},
+		{"EnableSandbox; DisableSandbox", func(e *twig.Engine) { e.EnableSandbox(twig.NewDefaultSecurityPolicy()); e.DisableSandbox() }},
+	}
+	for _, tg := range toggles {
+		for _, renderedBefore := range []bool{false, true} {
+			e := build()
+			if renderedBefore {
+				obs(e)
+			}
+			tg.do(e)
+			res.Evaluations += len(names)
+			if got := obs(e); got != want {
+				fail(tg.name, want, got, fmt.Sprintf("rendered before the switches: %v; a new engine with the same registrations renders the expected output", renderedBefore))
+				break
 			}
 		}
 	}
